@@ -130,10 +130,12 @@ def run(ctx):
             continue
         b = None
         for bi, t in f.calls(r):
-            if norm_fn(t.get("fn")) in TRUSTING and "String" in " ".join(t.get("ga", [])):
+            tys = [g for g in t.get("ga", []) if not g.startswith("'")]
+            # String-typed, or generic over the value type (a type parameter can be instantiated with a string type)
+            if norm_fn(t.get("fn")) in TRUSTING and ("String" in " ".join(tys) or (tys and re.fullmatch(r"[A-Z][A-Za-z0-9]*", tys[0]))):
                 b = b or cfg.body(r)
                 sites.append((p, b, bi, t))
-    ctx.floor("String-typed trusting decoder sites outside hexane", len(sites), 4)
+    ctx.floor("String-typed (or value-generic) trusting decoder sites outside hexane", len(sites), 4)
     for k, (p, b, bi, t) in util.ordinal_keys(sites, lambda s: "%s|%s" % (norm_fn(s[0]), norm_fn(s[3]["fn"]).split("::")[-1])):
         ctx.analysed_fns.add(p)
         arg = t["args"][0]
@@ -164,12 +166,15 @@ def literal_empty(b, arg):
 def dominated_by_validation(b, bi, t):
     """a validating load over the same bytes, same value type, whose Err exits, dominates block bi"""
     arg_o = b.operand_origin(t["args"][0])
-    want_ty = t["ga"][0]
+    def first_ty(ga):
+        tys = [g for g in (ga or []) if not g.startswith("'")]
+        return tys[0] if tys else None
+    want_ty = first_ty(t["ga"])
     for vb, vt in b.calls():
         c = norm_fn(vt.get("fn"))
         if not c or not VALIDATING_LOAD.match(c):
             continue
-        if not vt.get("ga") or vt["ga"][0] != want_ty:
+        if first_ty(vt.get("ga")) is None or first_ty(vt.get("ga")) != want_ty:
             continue
         if b.operand_origin(vt["args"][0]) != arg_o:
             continue
